@@ -76,7 +76,7 @@ def run(ctx):
     # key TYPES (numpy integers, IntEnum members, tuples, floats, None, bool, big / negative ints) and keys needing escapes
     cases += [mc.gen_history(ctx.rng, "assign", nofun=True, keys=["exotic", "exotic", "strings"][i % 3]) for i in range(ctx.pick(60, 900))]
     cases += [mc.gen_history(ctx.rng, ["assign", "mixed"][i % 2], nofun=True, values="mixed") for i in range(ctx.pick(40, 600))]
-    cases += C13.gen_cases(ctx, ctx.pick(40, 600)) + [mc.chain_case(ctx.pick(300, 2000))]
+    cases += C13.gen_cases(ctx, ctx.pick(40, 600))
     configs = [("compiled", s) for s in range(ctx.pick(3, 12))] + [("pure", s) for s in range(ctx.pick(2, 6))]
     # attribute assignment through a reference with names that mean something to Python's object model (members of `type`,
     # dunder names, members of the reference classes).  Names that are members of the reference object itself are the
@@ -109,41 +109,82 @@ def run(ctx):
     if afail:
         i, k, what = afail[0]
         vlib.violation(ctx, {"kind": "oracle", "what": what, "case": dict(acases[i], ops=acases[i]["ops"][:k + 1])})
-    runs = {}
-    for b, sd in configs:
-        runs[(b, sd)] = mc.run_impl_cases(cases, build=b, hashseed=sd)
-    ref = runs[configs[0]]
-    mism = mc.model_compare(ctx, cases[:-1], ref[:-1], "c20")
-    pure0 = runs[("pure", 0)]
-    mism_pure = mc.model_compare(ctx, cases[:ctx.pick(60, 600)], pure0[:ctx.pick(60, 600)], "c20p")
+    # every configuration is reduced, batch by batch, to per-operation digests (the full observations of 18 configurations
+    # do not fit in memory in the thorough tier); only the reference configuration and a slice of ('pure', 0) are kept whole
+    import hashlib
+    dg = lambda x: hashlib.md5(x.encode()).hexdigest()
+
+    def compact(ol):
+        full = transcript(ol, full=True)
+        return {"err": [o["err"] for o in ol], "d": [dg(json.dumps(t, sort_keys=True)) for t in full], "z": [dg(zero_norm(t)) for t in full],
+                "cyc": has_cycle(ol), "taint": mc.tainted_prefix(ol),
+                "first_err": next((j for j, o in enumerate(ol) if o["err"] is not None), len(ol))}
+    comp, ref, pure0 = {}, None, None
+    npure = ctx.pick(60, 600)
+    for cfg in configs:
+        comp[cfg] = []
+        for chunk in vlib.chunks(list(range(len(cases))), 400):
+            part = mc.run_impl_cases([cases[i] for i in chunk], build=cfg[0], hashseed=cfg[1])
+            comp[cfg] += [compact(ol) for ol in part]
+            if cfg == configs[0]:
+                ref = (ref or []) + part
+            elif cfg == ("pure", 0) and chunk[0] < npure:
+                pure0 = (pure0 or []) + part
+            del part
+    mism = mc.model_compare(ctx, cases, ref, "c20")
+    # a long chain of dependants: only the exception classes and the final contents are compared (the per-operation
+    # oracles of the runner are quadratic in the number of tasks)
+    big = mc.chain_case(min(ctx.pick(300, 2000), 2000))
+    bigs = {cfg: mc.run_impl_cases([big], build=cfg[0], hashseed=cfg[1], opts={"snapshots": False})[0] for cfg in configs}
+    bsum = {cfg: ([o["err"] for o in ol], ol[-1]["store"]) for cfg, ol in bigs.items()}
+    big_bad = [cfg for cfg in configs if bsum[cfg] != bsum[configs[0]]]
+    ctx.obligations.append((f"a chain of {len(big['ops']) - 1} dependants ends identically under every configuration", not big_bad, f"differing: {big_bad}"))
+    del bigs
+    mism_pure = mc.model_compare(ctx, cases[:npure], pure0[:npure], "c20p")
     mism = mism + mism_pure
+    del pure0
     fails = []
+    if big_bad:
+        cases.append(big); ref.append(mc.run_impl_cases([big], opts={"snapshots": False})[0])
+        for cf in configs:
+            comp[cf].append({"err": [], "d": [], "z": [], "cyc": False, "taint": None, "first_err": 0})
+        fails.append((len(cases) - 1, len(big["ops"]) - 1, f"a chain of dependants ends differently under {big_bad[0]} than under {configs[0]}"))
     zero_only = []       # programs whose transcripts differ in the sign of a zero and in nothing else (known finding cython-signed-zero)
-    cyc = [any(has_cycle(runs[c][i]) for c in configs) for i in range(len(cases))]
-    def tr(ol, i):
-        """mixed value types: an update may raise half-way (None + 1, shape mismatch) and the order among independent tasks,
-        hence the partial state, legitimately follows the hash seed (C18's domain): such programs are compared up to the
-        first operation that raised in any configuration, that operation by its exception class only"""
+    cyc = [any(comp[c][i]["cyc"] for c in configs) for i in range(len(cases))]
+
+    def view(cfg, i, key):
+        """the comparable part of program i under cfg as a list of per-operation tokens.  Integer programs: every operation (by
+        exception class only when an ordering cycle is involved - known finding C01).  Mixed value types: an update may raise
+        half-way (None + 1, shape mismatch) and the order among independent tasks, hence the partial state, legitimately follows
+        the hash seed (C18's domain): compared up to the first operation that raised in any configuration (that one by its
+        exception class), or up to the first ordering cycle if that comes first."""
+        c = comp[cfg][i]
+        n = len(c["err"])
         if mc.is_int_case(cases[i]):
-            return transcript(ol, full=not cyc[i])
-        cut = min(next((j for j, o in enumerate(runs[cf][i]) if o["err"] is not None), len(ol)) for cf in configs)
-        taint = min((t for t in (mc.tainted_prefix(runs[cf][i]) for cf in configs) if t is not None), default=len(ol))
-        if taint <= cut:       # ordering cycle (known finding C01): with mixed types even the exception class may follow the order
-            return transcript(ol[:taint], full=True)
-        return transcript(ol[:cut], full=True) + transcript(ol[cut:cut + 1], full=False)
+            return list(c["err"]) if cyc[i] else list(c[key])
+        cut = min(comp[cf][i]["first_err"] for cf in configs)
+        taint = min((comp[cf][i]["taint"] for cf in configs if comp[cf][i]["taint"] is not None), default=n)
+        if taint <= cut:
+            return list(c[key][:taint])
+        return list(c[key][:cut]) + list(c["err"][cut:cut + 1])
     for i, c in enumerate(cases):
-        t0 = tr(ref[i], i)
+        t0 = view(configs[0], i, "d")
         for cfg in configs[1:]:
-            t1 = tr(runs[cfg][i], i)
-            if t0 != t1 and cfg[0] != configs[0][0] and zero_norm(t0) == zero_norm(t1):
+            t1 = view(cfg, i, "d")
+            if t0 == t1:
+                continue
+            if cfg[0] != configs[0][0] and view(configs[0], i, "z") == view(cfg, i, "z"):
                 zero_only.append((i, cfg))
                 continue
-            if t0 != t1:
-                k = next(j for j, (x, y) in enumerate(zip(t0, t1)) if x != y)
-                what = ["exception class", "container contents", "definitions", "dump() text", "frozen flag"]
-                field = next(n for n, (x, y) in enumerate(zip(t0[k], t1[k])) if x != y)
-                fails.append((i, k, f"{what[field]} differ between {configs[0]} and {cfg}: {json.dumps(t0[k][field])[:300]} vs {json.dumps(t1[k][field])[:300]}"))
-                break
+            k = next((j for j, (x, y) in enumerate(zip(t0, t1)) if x != y), min(len(t0), len(t1)))
+            # details: run the one program again under the two configurations
+            a = mc.run_impl_cases([c], build=configs[0][0], hashseed=configs[0][1])[0]
+            b = mc.run_impl_cases([c], build=cfg[0], hashseed=cfg[1])[0]
+            what = ["exception class", "container contents", "definitions", "dump() text", "frozen flag"]
+            ta, tb = transcript(a[:k + 1]), transcript(b[:k + 1])
+            field = next((n for n, (x, y) in enumerate(zip(ta[-1], tb[-1])) if x != y), 0)
+            fails.append((i, k, f"{what[field]} differ between {configs[0]} and {cfg}: {json.dumps(ta[-1][field])[:300]} vs {json.dumps(tb[-1][field])[:300]}"))
+            break
     # expression terms (every operator, builtins with reference parameters, calls, computed keys) on both builds:
     # the structure the overloads build and every value / exception class must coincide
     import C04, refs_shared as rs
